@@ -30,6 +30,37 @@ Theorem c04_level_ignore_iff_ignored : forall (p : params) (e : cfg_entry) (cat 
 Proof. exact level_ignore_iff_ignored. Qed.
 Print Assumptions c04_level_ignore_iff_ignored.
 
+(* ---- the "overrides" of README 'Ignoring Rules via CLI Flags', one by one, and "all CLI flags override
+        configuration provided in file" ---- *)
+Theorem c04_disable_beats_everything : forall (p : params) (e : cfg_entry) (cat title : str),
+  In title (p_disable p) -> ignored_rule p e cat title = true.
+Proof. exact disable_beats_everything. Qed.
+Print Assumptions c04_disable_beats_everything.
+
+Theorem c04_enable_beats_category_and_all : forall (p : params) (e : cfg_entry) (cat title : str),
+  In title (p_enable p) -> ~ In title (p_disable p) ->
+  ignored_rule p e cat title = false /\ level_for_rule p e cat title = s_error.
+Proof. exact enable_beats_category_and_all. Qed.
+Print Assumptions c04_enable_beats_category_and_all.
+
+Theorem c04_disable_category_beats_enable_all : forall (p : params) (e : cfg_entry) (cat title : str),
+  In cat (p_disable_category p) -> ~ In title (p_enable p) -> ignored_rule p e cat title = true.
+Proof. exact disable_category_beats_enable_all. Qed.
+Print Assumptions c04_disable_category_beats_enable_all.
+
+Theorem c04_enable_category_beats_disable_all : forall (p : params) (e : cfg_entry) (cat title : str),
+  In cat (p_enable_category p) -> ~ In cat (p_disable_category p) -> ~ In title (p_disable p) ->
+  ignored_rule p e cat title = false /\ level_for_rule p e cat title = s_error.
+Proof. exact enable_category_beats_disable_all. Qed.
+Print Assumptions c04_enable_category_beats_disable_all.
+
+Theorem c04_cli_overrides_config : forall (p : params) (cat title : str) (e e' : cfg_entry),
+  spec_cli p cat title <> None ->
+  ignored_rule p e cat title = ignored_rule p e' cat title /\
+  level_for_rule p e cat title = level_for_rule p e' cat title.
+Proof. exact cli_overrides_config. Qed.
+Print Assumptions c04_cli_overrides_config.
+
 (* ---- Go: the merged configuration gives every rule it contains the level
         rule > category default > global default > provided level ("error" without one) ---- *)
 
@@ -157,3 +188,11 @@ Example c04_ex_custom_hypotheses :
   In ([99], [114]) [([99], [114])] /\ assoc [114] (provided_conf_levels provided_rules) = None /\
   rule_level_of provided_rules [99] [114] = None.
 Proof. split; [left; reflexivity|]. vm_compute. split; reflexivity. Qed.
+Example c04_ex_user_wf :
+  user_wf (Some (mkConfig [([98;117;103;115], [([99;111;110;115;116;97;110;116;45;99;111;110;100;105;116;105;111;110], s_warning)])]
+                          [([98;117;103;115], s_ignore)] s_error)) = true.
+Proof. reflexivity. Qed.
+Example c04_ex_aggregate_subset :
+  let agg := [([105;109;112;111;114;116;115], [117;110;114;101;115;111;108;118;101;100;45;105;109;112;111;114;116])] in  (* imports/unresolved-import *)
+  forall c t', In (c, t') agg -> In (c, t') bundled_rules.
+Proof. intros agg c t' [[= <- <-]|[]]. apply pair_in_spec. vm_compute. reflexivity. Qed.
